@@ -108,3 +108,9 @@ Proof.
   - unfold wf_byte. apply N.mod_lt. lia.
   - apply IHk.
 Qed.
+
+Lemma skipn_skipn_add {A} a : forall b (l : list A), skipn a (skipn b l) = skipn (b + a) l.
+Proof.
+  intros b; induction b as [|b IH]; intros l; [reflexivity|].
+  destruct l; [rewrite !skipn_nil; reflexivity|]. simpl. apply IH.
+Qed.
